@@ -64,7 +64,18 @@ def historyHandler : Handler
     let scripts := steps.map (·.models)
     let region := Scope.c04 g scripts
     let regionConv := Scope.c04 g scripts (conv := true)
-    some ((judge "C04" regionConv converge).and (judge "C04" (region.map (· ++ "/replay")) (replay g steps)))
+    -- C13 along the workflow: under the ignore-field-order option no recorded migration mentions a position, whichever
+    -- way the history was loaded (text or migration folder)
+    let noPositions : Check := do
+      if g.ignoreOrder then
+        let mut k := 0
+        for s in steps do
+          let up ← parseImpl g s!"up migration of revision {k}" s.up
+          let down ← parseImpl g s!"down migration of revision {k}" s.down
+          c13NoPositions (up ++ down)
+          k := k + 1
+    some (((judge "C04" regionConv converge).and (judge "C04" (region.map (· ++ "/replay")) (replay g steps))).and
+      (judge "C13" regionConv noPositions))
   | _ => none
 
 end Sqlize.Driver
